@@ -701,7 +701,12 @@ pub fn c05(tier: Tier) -> i32 {
         }
     }
     let _ = i;
-    let evaluations = total + n + specs.len() as u64;
+    // S5 the combinator family: every combinator tree of nesting depth <= 3 and arity 0..2 over the
+    // leaves {combinator of no patterns, expression text, compiled glob, owned glob}; construction,
+    // every query, matching, and installation as a negation
+    let s5 = combinator_family(&rep, tier);
+    rep.add("s5_combinator_trees", s5);
+    let evaluations = total + n + specs.len() as u64 + s5;
     let distinct = outcomes.lock().unwrap().len() as u64;
     rep.finish(
         json!({
@@ -713,6 +718,178 @@ pub fn c05(tier: Tier) -> i32 {
         }),
         vec!["a worker that dies (stack overflow, allocation failure) is a violation of totality for the case in flight, not a machinery failure".into()],
     )
+}
+
+#[derive(Clone, Debug)]
+enum Comb {
+    Text(&'static str),
+    Compiled(&'static str),
+    Owned(&'static str),
+    Any(Vec<Comb>),
+}
+
+impl Comb {
+    fn describe(&self) -> String {
+        match self {
+            Comb::Text(t) => format!("{:?}", t),
+            Comb::Compiled(t) => format!("Glob({:?})", t),
+            Comb::Owned(t) => format!("Glob({:?}).into_owned()", t),
+            Comb::Any(v) => format!("any([{}])", v.iter().map(|c| c.describe()).collect::<Vec<_>>().join(", ")),
+        }
+    }
+    fn to_json(&self) -> Value {
+        match self {
+            Comb::Text(t) => json!({"text": t}),
+            Comb::Compiled(t) => json!({"compiled": t}),
+            Comb::Owned(t) => json!({"owned": t}),
+            Comb::Any(v) => json!({"any": v.iter().map(|c| c.to_json()).collect::<Vec<_>>()}),
+        }
+    }
+    fn from_json(v: &Value) -> Comb {
+        fn leak(s: &str) -> &'static str {
+            Box::leak(s.to_string().into_boxed_str())
+        }
+        if let Some(t) = v["text"].as_str() {
+            Comb::Text(leak(t))
+        }
+        else if let Some(t) = v["compiled"].as_str() {
+            Comb::Compiled(leak(t))
+        }
+        else if let Some(t) = v["owned"].as_str() {
+            Comb::Owned(leak(t))
+        }
+        else {
+            Comb::Any(v["any"].as_array().map(|a| a.iter().map(Comb::from_json).collect()).unwrap_or_default())
+        }
+    }
+    /// builds the combinator through the public API (children of one `any` must have one type, so
+    /// leaves are given as one-pattern combinators when they stand beside nested combinators)
+    fn build(&self) -> Result<wax::Any<'static>, String> {
+        match self {
+            Comb::Text(t) => wax::any([*t]).map_err(|e| e.to_string()),
+            Comb::Compiled(t) => wax::any([Glob::new(t).map_err(|e| e.to_string())?]).map_err(|e| e.to_string()),
+            Comb::Owned(t) => wax::any([Glob::new(t).map_err(|e| e.to_string())?.into_owned()]).map_err(|e| e.to_string()),
+            Comb::Any(v) => {
+                if v.iter().all(|c| matches!(c, Comb::Text(_))) {
+                    let texts: Vec<&'static str> = v.iter().map(|c| if let Comb::Text(t) = c { *t } else { "" }).collect();
+                    return wax::any(texts).map_err(|e| e.to_string());
+                }
+                let mut kids = vec![];
+                for c in v {
+                    kids.push(c.build()?);
+                }
+                wax::any(kids).map_err(|e| e.to_string())
+            },
+        }
+    }
+    /// what the union of the leaves says (None when a leaf does not build)
+    fn union_matches(&self, path: &str) -> Option<bool> {
+        match self {
+            Comb::Text(t) | Comb::Compiled(t) | Comb::Owned(t) => Glob::new(t).ok().map(|g| g.is_match(path)),
+            Comb::Any(v) => {
+                let mut any = false;
+                for c in v {
+                    any |= c.union_matches(path)?;
+                }
+                Some(any)
+            },
+        }
+    }
+}
+
+fn run_comb(comb: &Comb) -> Result<(), String> {
+    use wax::walk::{FileIterator, PathExt};
+    let step = |name: &str, f: &mut dyn FnMut()| -> Result<(), String> { guard(|| f()).map_err(|p| format!("{}: {}", name, p)) };
+    let mut built: Option<wax::Any<'static>> = None;
+    step("any construction", &mut || {
+        built = comb.build().ok();
+    })?;
+    let Some(a) = built else { return Ok(()) };
+    step("queries", &mut || {
+        let _ = a.depth();
+        let _ = a.text();
+        let _ = a.has_root();
+        let _ = a.is_exhaustive();
+    })?;
+    for p in FIXED_PATHS {
+        step("is_match", &mut || {
+            let _ = a.is_match(p);
+        })?;
+        step("matched", &mut || {
+            let c = wax::CandidatePath::from(p);
+            if let Some(m) = a.matched(&c) {
+                let _ = m.complete();
+                let _ = m.get(1);
+                let _ = m.into_owned().get(0);
+            }
+        })?;
+    }
+    step("not construction", &mut || {
+        if let Ok(again) = comb.build() {
+            let _ = std::path::Path::new("/nonexistent-base/x").walk().not(again);
+        }
+    })?;
+    step("any of the combinator", &mut || {
+        if let Ok(again) = comb.build() {
+            let _ = wax::any([again]);
+        }
+    })?;
+    Ok(())
+}
+
+fn combinator_family(rep: &Report, tier: Tier) -> u64 {
+    let texts: Vec<&'static str> = tier.pick(vec!["", "a", "a/**", "<a:0,1>"], vec!["", "a", "a/**", "<a:0,1>", "**/a", "/a", "{a,b}"]);
+    let mut level0: Vec<Comb> = vec![];
+    for t in &texts {
+        level0.push(Comb::Text(t));
+        level0.push(Comb::Compiled(t));
+    }
+    level0.push(Comb::Owned("a/**"));
+    let next = |prev: &Vec<Comb>| -> Vec<Comb> {
+        let mut out = vec![Comb::Any(vec![])];
+        for x in prev {
+            out.push(Comb::Any(vec![x.clone()]));
+        }
+        for x in prev {
+            for y in prev {
+                out.push(Comb::Any(vec![x.clone(), y.clone()]));
+            }
+        }
+        out
+    };
+    let level1 = next(&level0);
+    // level 2 over a thinned level 1 (every shape, the first few leaves): the tree shapes are what
+    // matters for totality
+    let thin: Vec<Comb> = level1.iter().filter(|c| match c {
+        Comb::Any(v) => v.iter().all(|x| matches!(x, Comb::Text("") | Comb::Text("a") | Comb::Compiled("a/**") | Comb::Text("<a:0,1>"))),
+        _ => true,
+    }).cloned().collect();
+    let level2 = next(&thin);
+    let mut all = level1;
+    all.extend(level2);
+    all.par_iter().for_each(|comb| {
+        if let Err(what) = run_comb(comb) {
+            rep.alarm(Alarm {
+                class: None,
+                key: format!("combinator {}", comb.describe()),
+                msg: format!("combinator {}: PANIC {}", comb.describe(), what),
+                case: json!({"kind": "combinator", "comb": comb.to_json()}),
+            });
+        }
+    });
+    all.len() as u64
+}
+
+pub fn replay_combinator(case: &Value) -> bool {
+    let comb = Comb::from_json(&case["comb"]);
+    let r = run_comb(&comb);
+    println!("combinator {}: {:?}", comb.describe(), r);
+    if let Ok(a) = comb.build() {
+        for p in FIXED_PATHS {
+            println!("  is_match({:?}) = {}, union of the leaves = {:?}", p, a.is_match(p), comb.union_matches(p));
+        }
+    }
+    r.is_err()
 }
 
 pub fn replay_total(case: &Value) -> bool {
